@@ -401,10 +401,22 @@ static void run_schedule_case(const cfg_t *c, const char *cls, const char *fates
 /* ---- configuration set-up in the parent: clean run (rank table, datagram count), session for resumption ---- */
 typedef struct { cfg_t c; int ready; int ndg, nsteps; int rank[2][256]; sslSessionId_t *sid; int usable; } cfgstate_t;
 
+static void cfg_prepare_body(cfgstate_t *cs);
+static void cfg_probe(void *arg) { cfgstate_t tmp = *(cfgstate_t *) arg; cfg_prepare_body(&tmp); }
 static void cfg_prepare(cfgstate_t *cs)
 {
     if (cs->ready) return;
     cs->ready = 1;
+    /* dry run in a child: a crash in a clean handshake must not take the shard down */
+    char spec[200]; snprintf(spec, sizeof spec, "S/%s/%04x/%d/%s/setup//", mx_vername[cs->c.ver], cs->c.suite, cs->c.pmtu, kindname[cs->c.kind]);
+    int sv = vf_shard; vf_shard = -1;
+    int rc = vf_fork_case(cfg_probe, cs, "c16-setup", spec, 120);
+    vf_shard = sv;
+    if (rc) return;
+    cfg_prepare_body(cs);
+}
+static void cfg_prepare_body(cfgstate_t *cs)
+{
     matrixDtlsSetPmtu(cs->c.pmtu);
     if (cs->c.kind == K_RESUMED) {
         /* establish the session that the cases resume */
@@ -412,7 +424,7 @@ static void cfg_prepare(cfgstate_t *cs)
         matrixSslNewSessionId(&cs->sid, NULL);
         memset(g_rank, 0xff, sizeof g_rank); g_record_rank = 1; g_nrank[0] = g_nrank[1] = 0;
         sim_init(&full, "setup", "", "", cs->sid);
-        if (!sim_handshake()) { vf_incon("set-up handshake failed for %s %04x pmtu %d", mx_vername[cs->c.ver], cs->c.suite, cs->c.pmtu); return; }
+        if (!sim_handshake()) { if (!G.nclauses) vf_incon("set-up handshake failed for %s %04x pmtu %d", mx_vername[cs->c.ver], cs->c.suite, cs->c.pmtu); return; }
         sim_clean_exchange(900, "set-up");
         sim_free();
     }
@@ -420,7 +432,7 @@ static void cfg_prepare(cfgstate_t *cs)
     sim_init(&cs->c, "setup", "", "", cs->sid);
     int ok = sim_handshake();
     g_record_rank = 0;
-    if (!ok || G.nclauses) { vf_incon("clean handshake failed for %s %04x pmtu %d %s", mx_vername[cs->c.ver], cs->c.suite, cs->c.pmtu, kindname[cs->c.kind]); return; }
+    if (!ok || G.nclauses) { if (!G.nclauses) vf_incon("clean handshake failed for %s %04x pmtu %d %s", mx_vername[cs->c.ver], cs->c.suite, cs->c.pmtu, kindname[cs->c.kind]); return; }
     if (cs->c.kind == K_RESUMED && !(G.S.ssl->flags & SSL_FLAGS_RESUMED)) { vf_incon("session was not resumed for %s %04x", mx_vername[cs->c.ver], cs->c.suite); return; }
     cs->ndg = G.sendIdx; cs->nsteps = G.step;
     memcpy(cs->rank, g_rank, sizeof g_rank);
@@ -491,6 +503,7 @@ static void add_case(cfgstate_t *cs, const char *cls, const char *fates, const c
     if (vf_shard == 0 && (g_nsamples++ % 1777) == 400) vf_sample("%s %04x pmtu %d %s %s schedule \"%s\" %s", mx_vername[cs->c.ver], cs->c.suite, cs->c.pmtu, kindname[cs->c.kind], cls, fates, spur ? spur : "");
 }
 
+static int g_L = 16, g_delays = 3, g_spsteps = 16;
 static void gen_schedules(cfgstate_t *cs, int m, int nrandom, int spurious_depth, vf_rng *g)
 {
     char f[72];
@@ -499,13 +512,13 @@ static void gen_schedules(cfgstate_t *cs, int m, int nrandom, int spurious_depth
     /* all 2^m drop patterns over the first m datagrams (pattern 0 = clean run) */
     for (long p = 0; p < (1L << m); p++) { for (int i = 0; i < m; i++) f[i] = (p >> i) & 1 ? 'x' : '.'; f[m] = 0; add_case(cs, "drop-pattern", f, ""); }
     /* single duplicate / late duplicate / swap / delay at every position of the clean handshake and two beyond (application data) */
-    int L = 16;   /* clean handshakes send 5..14 datagrams; positions beyond hit the data phase */
+    int L = g_L;  /* clean handshakes send 5..20 datagrams; positions beyond hit the data phase */
     for (int i = 0; i < L; i++) {
         memset(f, '.', i); f[i + 1] = 0;
         f[i] = 'd'; add_case(cs, "single-duplicate", f, "");
         f[i] = 'D'; add_case(cs, "single-duplicate", f, "");
         f[i] = 's'; add_case(cs, "single-swap", f, "");
-        for (int k = 1; k <= 3; k++) { f[i] = '0' + k; add_case(cs, "single-delay", f, ""); }
+        for (int k = 1; k <= 3; k++) { if (g_delays == 1 && k != 2) continue; f[i] = '0' + k; add_case(cs, "single-delay", f, ""); }
     }
     /* random schedules over the first 28 datagrams */
     for (int r = 0; r < nrandom; r++) {
@@ -518,7 +531,7 @@ static void gen_schedules(cfgstate_t *cs, int m, int nrandom, int spurious_depth
     }
     /* spurious timeouts: after every delivery step of the clean handshake, on either endpoint */
     if (spurious_depth >= 1) {
-        for (int st = 1; st <= 16; st++) for (int ep = 0; ep < 2; ep++) { char sp[48]; snprintf(sp, sizeof sp, "T%d%c", st, ep ? 'S' : 'C'); add_case(cs, "spurious-timeout", "", sp); }
+        for (int st = 1; st <= g_spsteps; st++) for (int ep = 0; ep < 2; ep++) { char sp[48]; snprintf(sp, sizeof sp, "T%d%c", st, ep ? 'S' : 'C'); add_case(cs, "spurious-timeout", "", sp); }
     }
     if (spurious_depth >= 2) {
         for (int st = 1; st <= 12; st++) for (int s2 = st; s2 <= 12; s2++) for (int e = 0; e < 4; e++) {
@@ -573,11 +586,13 @@ static void replay_child(void *arg)
     vf_distinct("R/%d/%04x/%d/%d/%d/%d/%d.%d.%llu.%d/%d/%d", G.cfg.ver, G.cfg.suite, G.cfg.pmtu, G.cfg.kind, r->est, r->mode, c->dir, c->epoch, c->seq, c->isdg, r->mode == 3 ? r->rec2 : -1, r->pos);
 }
 
-static long g_rcase;
-static void run_replays(cfgstate_t *cs, int est, int K, int pairs, const char *onlyspec)
+static long g_scenario;
+typedef struct { cfgstate_t *cs; int est, K, pairs; const char *onlyspec; long scn; } scn_arg;
+static void replay_scenario(void *argp)
 {
-    cfg_prepare(cs); if (!cs->usable) return;
-    cfg_activate(cs);
+    scn_arg *a = argp; cfgstate_t *cs = a->cs; int est = a->est, K = a->K, pairs = a->pairs; const char *onlyspec = a->onlyspec;
+    long g_rcase = a->scn * 131;
+    alarm(3000);
     cfg_t *c = &cs->c;
     /* establishment with capture */
     const char *fates = "";
@@ -586,12 +601,12 @@ static void run_replays(cfgstate_t *cs, int est, int K, int pairs, const char *o
         memset(fbuf, '.', sizeof fbuf); fbuf[cs->ndg - 1] = 'x'; fbuf[cs->ndg] = 0; fates = fbuf; }
     sim_init(c, "replay", fates, "", cs->sid);
     G.capture = 1;
-    if (!sim_handshake()) { vf_incon("replay establishment failed %s %04x %s est %d", mx_vername[c->ver], c->suite, kindname[c->kind], est); return; }
+    if (!sim_handshake()) { if (!G.nclauses) vf_incon("replay establishment failed %s %04x %s est %d", mx_vername[c->ver], c->suite, kindname[c->kind], est); return; }
     G.forceClean = 1;
     for (int j = 0; j < 3 && !G.failed; j++) { app_send(&G.C, j); sim_settle(6); if (est != 1) { app_send(&G.S, j); sim_settle(6); } }
     if (est == 1) { app_send(&G.C, 3); sim_settle(6); }
     G.capture = 0;
-    if (G.failed || G.nclauses) { vf_incon("replay establishment data exchange failed %s %04x %s est %d", mx_vername[c->ver], c->suite, kindname[c->kind], est); return; }
+    if (G.failed || G.nclauses) { if (!G.nclauses) vf_incon("replay establishment data exchange failed %s %04x %s est %d", mx_vername[c->ver], c->suite, kindname[c->kind], est); return; }
     if (vf_shard == 0 || vf_case) { vf_stat("replay_scenarios", 1); vf_stat("records_captured", G.ncap); }
     for (int mode = 0; mode < (pairs ? 4 : 3); mode++) for (int rec = 0; rec < G.ncap; rec++) {
         int n2 = mode == 3 ? G.ncap : 1;
@@ -613,6 +628,16 @@ static void run_replays(cfgstate_t *cs, int est, int K, int pairs, const char *o
     sim_free();
     for (int i = 0; i < G.ncap; i++) free(G.cap[i].d);
     G.ncap = 0;
+}
+/* the establishment itself runs in a child, so that a library crash there costs one scenario, not the shard */
+static void run_replays(cfgstate_t *cs, int est, int K, int pairs, const char *onlyspec)
+{
+    cfg_prepare(cs); if (!cs->usable) return;
+    cfg_activate(cs);
+    scn_arg a = { cs, est, K, pairs, onlyspec, g_scenario++ };
+    char spec[300]; cfg_t *c = &cs->c;
+    snprintf(spec, sizeof spec, "S/%s/%04x/%d/%s/replay-establishment-%s/%s/", mx_vername[c->ver], c->suite, c->pmtu, kindname[c->kind], estname[est], est == 2 ? "(last handshake datagram dropped once)" : "");
+    vf_fork_case(replay_scenario, &a, "c16-replay-establishment", spec, 3000);
 }
 
 /* ================= configurations ================= */
@@ -661,12 +686,13 @@ int main(int argc, char **argv)
     int ci = 0;
     /* --- PSK bulk: exhaustive drop patterns --- */
     static const struct { uint16_t suite; int ver; } psk[] = { { 0x008c, MX_DTLS10 }, { 0x008c, MX_DTLS12 }, { 0x00ae, MX_DTLS12 } };
+    g_L = T ? 16 : 12; g_delays = 3; g_spsteps = T ? 16 : 10;
     for (int i = 0; i < 3; i++) for (int kind = K_FULL; kind <= K_RESUMED; kind++) {
         mx_entropy_seed(vf_seed * 31 + ci++);
-        int m = T ? 12 : (i == 2 ? 8 : 9);
+        int m = T ? 12 : (i == 2 ? 6 : 8);
         gen_schedules(cfg_get(psk[i].ver, psk[i].suite, 1500, kind), m, T ? 3000 : 24, T ? 2 : 1, &g);
     }
-    for (int kind = K_FULL; kind <= K_RESUMED; kind++) { mx_entropy_seed(vf_seed * 31 + ci++); gen_schedules(cfg_get(MX_DTLS12, 0x00ae, 256, kind), T ? 10 : 6, T ? 500 : 8, 1, &g); }
+    for (int kind = K_FULL; kind <= K_RESUMED; kind++) { mx_entropy_seed(vf_seed * 31 + ci++); gen_schedules(cfg_get(MX_DTLS12, 0x00ae, 256, kind), T ? 10 : 5, T ? 500 : 8, 1, &g); }
     /* --- certificate suites: RSA key transport and ECDHE-RSA, CBC and GCM, all PMTUs, three handshake kinds --- */
     static const struct { uint16_t suite; int ver; } cert[] = { { 0x002f, MX_DTLS10 }, { 0x002f, MX_DTLS12 }, { 0x009c, MX_DTLS12 }, { 0xc013, MX_DTLS10 }, { 0xc013, MX_DTLS12 }, { 0xc02f, MX_DTLS12 } };
     for (int i = 0; i < 6; i++) for (int pi = 0; pi < 3; pi++) for (int kind = 0; kind < NKIND; kind++) {
@@ -675,10 +701,12 @@ int main(int argc, char **argv)
         if (!T) {
             /* quick: every (suite, version) x pmtu x kind, but small exhaustive depth; ECDHE only at two PMTUs */
             if (ecdhe && pi == 1) continue;
-            int m = ecdhe ? 3 : (pi == 0 ? 6 : 4);
-            gen_schedules(cfg_get(cert[i].ver, cert[i].suite, pmtus[pi], kind), m, ecdhe ? 3 : 6, 1, &g);
+            int m = ecdhe ? 3 : (pi == 0 ? 5 : 3);
+            g_L = pi == 0 ? 8 : 12; g_delays = 1; g_spsteps = pi == 0 ? 8 : 12;
+            gen_schedules(cfg_get(cert[i].ver, cert[i].suite, pmtus[pi], kind), m, ecdhe ? 3 : 5, 1, &g);
         } else {
             int m = ecdhe ? 8 : 10;
+            g_L = pi == 0 ? 12 : 24; g_delays = 3; g_spsteps = pi == 0 ? 12 : 24;
             gen_schedules(cfg_get(cert[i].ver, cert[i].suite, pmtus[pi], kind), m, ecdhe ? 300 : 600, pi == 0 || pi == 2 ? 2 : 1, &g);
         }
     }
